@@ -268,6 +268,36 @@ func TestC03(t *testing.T) {
 				"size_base": mi.Layout.SizeBase, "size_ext": mi.Layout.SizeExt, "fields": len(mi.Layout.Fields)})
 		}
 	}
+	// codecs initialised at the same time on several goroutines (dialects set up concurrently, several nodes starting at
+	// once) derive the same CRC_EXTRA and sizes as one initialised alone
+	{
+		types := append(append([]*msgInfo{}, all...), users...)
+		var wg sync.WaitGroup
+		for g := 0; g < 8; g++ {
+			wg.Add(1)
+			go func(g int) {
+				defer wg.Done()
+				for round := 0; round < vh.Pick(2, 10); round++ {
+					for i := g % 3; i < len(types); i += 3 {
+						mi := types[(i+round*7)%len(types)]
+						rw := &message.ReadWriter{Message: mi.Msg}
+						rep.Eval(1)
+						if err := rw.Initialize(); err != nil {
+							rep.Violation(fmt.Sprintf("msg=%s what=init", mi.Name), "Initialize failed when run concurrently with other initialisations: "+err.Error(), nil)
+							return
+						}
+						if rw.CRCExtra() != mi.Layout.CRCExtra {
+							rep.Violation(fmt.Sprintf("msg=%s what=crc_extra", mi.Name),
+								fmt.Sprintf("a codec initialised concurrently with others has CRC_EXTRA %d, the definition gives %d", rw.CRCExtra(), mi.Layout.CRCExtra), nil)
+							return
+						}
+					}
+				}
+			}(g)
+		}
+		wg.Wait()
+		rep.Count("concurrent_initialisations", 1)
+	}
 	// the same layout is read when several goroutines decode with ONE ReadWriter at the same time (a Node shares
 	// the dialect's codecs between the reader goroutines of its channels)
 	{
